@@ -2,6 +2,13 @@ import PagexmlModel.Drv.Util
 import PagexmlModel.Drv.C03
 import PagexmlModel.Drv.C06
 import PagexmlModel.Drv.C07
+import PagexmlModel.Drv.C01
+import PagexmlModel.Drv.C05
+import PagexmlModel.Drv.C08
+import PagexmlModel.Drv.C09
+import PagexmlModel.Drv.C19
+import PagexmlModel.Drv.C02
+import PagexmlModel.Drv.C04
 import PagexmlModel.Drv.C10
 import PagexmlModel.Drv.C11
 import PagexmlModel.Drv.C20
@@ -22,6 +29,13 @@ def dispatch (p op : String) (args : Json) : Dec Json :=
   | "C03" => C03.handle op args
   | "C06" => C06.handle op args
   | "C07" => C07.handle op args
+  | "C01" => C01.handle op args
+  | "C05" => C05.handle op args
+  | "C08" => C08.handle op args
+  | "C09" => C09.handle op args
+  | "C19" => C19.handle op args
+  | "C02" => C02.handle op args
+  | "C04" => C04.handle op args
   | "C10" => C10.handle op args
   | "C11" => C11.handle op args
   | "C12" => C12.handle op args
